@@ -33,6 +33,7 @@ type Server struct {
 	settingsMu            sync.RWMutex
 	supportsConfiguration bool
 	payeeTemplatesCache   sync.Map // map[protocol.DocumentURI]map[string][]analyzer.PostingTemplate
+	publishMu             sync.Mutex
 }
 
 func NewServer() *Server {
@@ -275,6 +276,14 @@ func (s *Server) publishDiagnostics(ctx context.Context, docURI protocol.Documen
 	}
 
 	verifhook.Point("pd.publish", string(docURI))
+	// Analyses of successive changes finish in any order. Publish under a lock and
+	// drop a result whose content has been superseded, so that the last diagnostics
+	// the client receives are always those of the latest content.
+	s.publishMu.Lock()
+	defer s.publishMu.Unlock()
+	if current, ok := s.GetDocument(docURI); ok && current != content {
+		return
+	}
 	_ = s.client.PublishDiagnostics(ctx, &protocol.PublishDiagnosticsParams{
 		URI:         docURI,
 		Diagnostics: diagnostics,
